@@ -31,7 +31,7 @@ class ModelMixin:
                      "ite", "unit", "is_none", "is_str", "is_int", "is_ref", "last", "ref", "allocated",
                      "held", "is_list_of_pos_int", "cls_id", "is_float", "sval", "ival", "dget", "singleton", "str", "is_bool", "is_dict", "is_list",
                      "setof", "contains", "prefix_of", "is_bytes", "is_cls", "map_int2str", "joinstr", "split", "lookup_global",
-                     "funcval", "seqmap", "extends", "only_changed", "UNSET", "unchanged", "unchanged_old", "cls_module_name", "all_reports", "empty_log", "count_failed", "suffix_of", "proj_a", "all_b", "all_tag", "card", "outside", "mro", "none_in", "is_concat", "none_missing", "is_subset", "union"}
+                     "funcval", "seqmap", "extends", "only_changed", "UNSET", "unchanged", "unchanged_old", "cls_module_name", "all_reports", "empty_log", "count_failed", "suffix_of", "proj_a", "all_b", "all_tag", "card", "outside", "mro", "none_in", "is_concat", "none_missing", "is_subset", "union", "all_nat", "levelstr", "ascii_ok", "bytes_of", "str_contains", "codec_facts"}
 
     # ------------------------------------------------------------------ spec-mode calls
     def spec_call(self, e, st):
@@ -111,6 +111,9 @@ class ModelMixin:
             elif srt == "str":
                 v = z3.Const("q!%s!%d" % (n, self.n), S)
                 st.frames[fid][n] = SV("str", v)
+            elif srt == "seq":
+                v = z3.Const("q!%s!%d" % (n, self.n), SeqV)
+                st.frames[fid][n] = SV("seq", v)
             elif srt.startswith("ref:"):
                 v = z3.Const("q!%s!%d" % (n, self.n), I)
                 h = srt[4:]
@@ -235,6 +238,8 @@ class ModelMixin:
         if name == "typed":
             # typed(x, "hint"): view a boxed value at a type (adds the type assumption)
             v = a[0]
+            if e.args[1].value == "bytes_as_str":
+                return SV("str", Val.yv(box(v)))
             npc = len(st.pc)
             bv_ = box(v)
             out = self.from_val(st, bv_, e.args[1].value)
@@ -286,8 +291,7 @@ class ModelMixin:
         if name == "suffix_of":
             x = self.spec_builtin(st, "seq", [a[0]], e) if a[0].k not in ("seqe", "seq") else a[0]
             y = self.spec_builtin(st, "seq", [a[1]], e) if a[1].k not in ("seqe", "seq") else a[1]
-            lx, ly = z3.Length(x.t), z3.Length(y.t)
-            return SV("bool", z3.And(lx <= ly, y.t == z3.Concat(z3.Extract(y.t, 0, ly - lx), x.t)))
+            return SV("bool", z3.SuffixOf(x.t, y.t))
         if name == "extends":
             # extends(new, old): new == old ++ something
             return SV("bool", z3.PrefixOf(a[1].t, a[0].t))
@@ -349,6 +353,34 @@ class ModelMixin:
             from .libx import mro_of
             v = self.concretize(st, a[0])
             return SV("seq", mro_of(v.t), h="cls")
+        if name == "codec_facts":
+            # ground instances, for the given uuid text U and level L, of the trusted string-library axioms (contracts/common.py
+            # "string-codec"): split at '@', inverse of the level codec, '@'-freeness and ASCII-ness of a level string
+            U = a[0].t
+            L = self.spec_builtin(st, "seq", [a[1]], e).t
+            at, slash = z3.StringVal("@"), z3.StringVal("/")
+            ls = z3.Concat(slash, str_join(slash, self.seqmap_str(L)))
+            mapint = z3.Function("map_int_nonempty", SeqV, SeqV)
+            allint = z3.Function("all_int_nonempty", SeqV, B)
+            allnat = z3.Function("all_nat", SeqV, B)
+            self.assumptions.add("string library axioms (split at '@'; level codec inverse; level strings are ASCII without '@'): ground instances, cross-checked natively")
+            return SV("bool", z3.And(
+                z3.Implies(z3.And(z3.Not(z3.Contains(U, at)), z3.Not(z3.Contains(ls, at))),
+                           str_split(z3.Concat(U, at, ls), at) == z3.Concat(z3.Unit(Val.StrV(U)), z3.Unit(Val.StrV(ls)))),
+                z3.Implies(allnat(L), z3.And(mapint(str_split(ls, slash)) == L, allint(str_split(ls, slash)),
+                                             z3.Not(z3.Contains(ls, at)), ascii_ok(ls)))))
+        if name == "all_nat":
+            sq = self.spec_builtin(st, "seq", [a[0]], e).t
+            return SV("bool", z3.Function("all_nat", SeqV, B)(sq))
+        if name == "levelstr":
+            sq = self.spec_builtin(st, "seq", [a[0]], e).t
+            return SV("str", z3.Concat(z3.StringVal("/"), str_join(z3.StringVal("/"), self.seqmap_str(sq))))
+        if name == "ascii_ok":
+            return SV("bool", ascii_ok(a[0].t))
+        if name == "bytes_of":
+            return SV("bytes", a[0].t)
+        if name == "str_contains":
+            return SV("bool", z3.Contains(a[0].t, a[1].t))
         if name == "is_subset":
             return SV("bool", z3.IsSubset(self.as_sset(st, a[0]), self.as_sset(st, a[1])))
         if name == "union":
@@ -615,7 +647,8 @@ class ModelMixin:
             out = []
             for s2, b in self.fork(st, prim):
                 if b:
-                    out.append(Res(s2, SV("str", str_of(recv.t) if which == "str" else fmt2(z3.StringVal("repr"), z3.Unit(recv.t)))))
+                    out.append(Res(s2, SV("str", z3.If(Val.is_StrV(recv.t), Val.sv(recv.t), str_of(recv.t)) if which == "str"
+                                          else fmt2(z3.StringVal("repr"), z3.Unit(recv.t)))))
                 else:
                     out.extend(self.call_opaque(s2, SV("obj", Val.rv(recv.t), h="Str"), "Str", which, [], {}, None, None))
             return out
@@ -771,6 +804,8 @@ class ModelMixin:
             return self.str_method(st, recv, name, a, kw, star, starkw)
         if k == "ctxvar":
             return self.ctxvar_method(st, recv, name, a)
+        if k == "inst" and recv.h == "Lock":
+            return self.lock_method(st, recv, name, a)
         if k in ("sset", "cset"):
             if name in ("union",):
                 return [Res(st, SV("sset", z3.SetUnion(self.as_sset(st, recv), self.as_sset(st, a[0]))))]
